@@ -156,6 +156,24 @@ add("C20", "fault_enumeration",
     "Stage list = call sites of gen_params / gen_coords / gen_seq as of the pinned tree (pmc/props/c20.py); a failure of the final DeferredFileWriter.write itself is only judged for its immediate effect.",
     "§5 C20")
 
-for _p in ["C06", "C07",
-           "C15", "C18"]:
+add("C06", "model_checking",
+    "stateless exploration of the real gen_coords with the optimiser answer behind the chooser",
+    "For residues of 1-5 atoms (planar, chiral with user templates) with 0-3 bonded neighbours in linear and branched molecules, "
+    "two backmapping factors and an input with pre-existing atoms, each residue's orientation answer is taken from the real "
+    "L-BFGS result and from all 216 angle triples over six angles (one deviating residue per execution); every backmapped "
+    "residue is checked for centre of geometry, Gram-matrix equality with the template taken by atom name, and preserved sign "
+    "of every atom quadruple's signed volume.",
+    "Templates are taken as polyply holds them; angle alphabet finite.",
+    "§3 C06")
+add("C07", "model_checking",
+    "stateless deviation-bounded exploration of the real gen_coords over a build-file grammar",
+    "66 build files (geometric restraints in/out with sub-ranges, growth-direction cones, end-to-end distance restraints, "
+    "-cycles on rings of 3-6, persistence length with every sampled distance as an option) are each built for every trajectory "
+    "within 2 direction deviations and one start deviation; independent predicates are evaluated at every accepted placement "
+    "and on the final positions; the cycle's closing pair is recomputed as the ring edge missing from the observed growth tree.",
+    "Axis directions (rings: axis + face diagonals); rotating default direction so that restrained walks terminate; systems "
+    "capped at 700 executions are reported in the evidence.",
+    "§3 C07")
+
+for _p in ["C15", "C18"]:
     NOT_YET[_p] = "check under construction in this session (bounded exhaustive exploration applies; see DESIGN.md)"
